@@ -13,7 +13,8 @@ EXPLANATION = (
     "task that calls reassemble, and removes from the queue every id it pops from the timer list. The permutation/duplication law of the "
     "bitmap algebra is NOT decided by this family."
     ' timer() examines the expiry list on every call (no early return before it).'
-    ' Rule P also covers the Fragmentable implementations and what they call: a completed (possibly inconsistent) buffer must yield a frame or nothing, never a panic.')
+    ' Rule P also covers the Fragmentable implementations and what they call: a completed (possibly inconsistent) buffer must yield a frame or nothing, never a panic.'
+    " order: add_fragment decides by position only - the arriving payload's size is compared with no state remembered from an earlier arrival.")
 RULE_TEXT = "instances = header fields, panic edges in fragment.rs, counter update, timer wiring"
 TRUSTED = ["bytes::Buf get/put semantics"]
 NOT_DECIDED = ["that any permutation/duplication of the fragment multiset reassembles to exactly the original once (a property of histories; "
@@ -22,7 +23,56 @@ NOT_DECIDED = ["that any permutation/duplication of the fragment multiset reasse
 W = {"u8": 1, "u16": 2, "u32": 4, "u64": 8}
 
 
+
+def rule_order_free(chk, prog, rule="order"):
+    """Whether a fragment is kept must not depend on which fragment of its frame happened to arrive first.  The queue knows a fragment
+    by its position (seq / the bitmap) alone: in ReassembleQueue::add_fragment no branch compares the *size* of the arriving payload with
+    state the queue remembered from an earlier arrival (a field of self).  A size remembered from "the first" fragment is the size of
+    whichever came first - if that was the shorter last fragment, every other fragment is refused and the frame never completes."""
+    from .panics import _cmp_facts, canon
+    fs = prog.find(r"^common::fragment::ReassembleQueue::add_fragment$", "redproxy_rs")
+    if len(fs) != 1:
+        chk.anchor_missing(rule, "ReassembleQueue::add_fragment")
+        return
+    g = fs[0]
+    def kind(o):
+        l = op_base(o)
+        if l is None:
+            return None
+        tr = g.trace(l, through_calls=[r"Deref::deref$", r"Bytes::len$", r"::len$"])
+        is_len = any(k == "call" and re.search(r"::len$", info.path or "") for k, info in tr)
+        root = None
+        for k, info in tr:
+            if k in ("ref", "place") and info and (root is None or not any(isinstance(x_, str) and x_.startswith("f:") for x_ in root[1:])):
+                root = info
+            if k == "arg" and root is None:
+                root = [info]
+        if root is None:
+            return None
+        if root[0] == 1 and any(isinstance(x, str) and x.startswith("f:") for x in root[1:]):
+            fld = [x for x in root[1:] if isinstance(x, str) and x.startswith("f:")][0]
+            return ("self", fld, is_len)
+        if 2 <= root[0] <= g.arg_count and g.local_ty_s(root[0]).startswith("bytes::"):
+            return ("payload", None, is_len)
+        return None
+    bad = []
+    for (sb, tb, cop, x, y) in _cmp_facts(g):
+        kx, ky = kind(x), kind(y)
+        for a, b in ((kx, ky), (ky, kx)):
+            if a and b and a[0] == "payload" and a[2] and b[0] == "self" and not (b[1] == "f:fragments" and b[2]):
+                bad.append((sb, b[1]))
+    ok = not bad
+    chk.instance(rule, "%s:%s" % (g.file, g.line), "add_fragment decides by position only, not by a size remembered from an earlier arrival", ok)
+    for sb, fld in bad[:1]:
+        chk.finding(rule, g.key, "size-of-first-arrival", fld[2:], "%s:%s" % (g.file, g.line),
+                    "ReassembleQueue::add_fragment compares the size of the arriving fragment with self.%s, a value remembered from whichever "
+                    "fragment arrived first: a frame whose short last fragment overtakes the others never completes - reassembly depends "
+                    "on arrival order" % fld[2:])
+
+
+
 def run(chk, prog):
+    rule_order_free(chk, prog)
     nx = prog.find(r"MakeFragments<T> as core::iter::traits::iterator::Iterator>::next$", "redproxy_rs")
     ra = prog.find(r"^common::fragment::Fragments::<T>::reassemble$", "redproxy_rs")
     if len(nx) != 1 or len(ra) != 1:
